@@ -209,6 +209,32 @@ def set_path(obj, path, v):
     obj[path[-1]] = v
 
 
+def multiline_drift(ck, wd, st, inp, m, mute, pk, si):
+    """the stored messages are compared as whole strings: for a multi-line message (RDH errors carry a context block, lane errors
+       a list) both a change in its first line and a change confined to a continuation line are drift (seeded C15-m4: only the
+       first line of each message compared). Returns the number of multi-line messages found."""
+    extra = []
+    for path, v in json_leaves(st):
+        if path[-1] == 'reported_errors' and isinstance(v, list):
+            multi = [k for k, x in enumerate(v) if isinstance(x, str) and '\n' in x.strip('\n')]
+            for k in multi[:2]:
+                lines = v[k].split('\n')
+                j = max(i for i, ln in enumerate(lines) if ln.strip() and i > 0)
+                w1 = list(v); w1[k] = '\n'.join(lines[:j] + [lines[j] + '7'] + lines[j + 1:]); extra.append((path, v, w1, 'continuation'))
+                w2 = list(v); w2[k] = '\n'.join([lines[0] + '7'] + lines[1:]); extra.append((path, v, w2, 'first_line'))
+    for path, v, pv, kind in extra:
+        st2 = json.loads(json.dumps(st)); set_path(st2, path, pv)
+        pp = os.path.join(wd, 'pert.json'); json.dump(st2, open(pp, 'w'))
+        r3 = subprocess.run([L.BIN, inp] + mode_args(m) + mute + ['-i', pp, '-E', '9', '-v', '2'], stdout=subprocess.PIPE, stderr=subprocess.PIPE)
+        err3 = L.ANSI.sub('', r3.stderr.decode('utf-8', 'replace'))
+        ck.case((si, m, tuple(path), kind)); ck.count('drift_multiline_' + kind)
+        if r3.returncode != 9 or 'Input stats did not match' not in err3:
+            ck.violation('drift', {'what': 'a change inside a multi-line stored error message (%s) is not reported as a mismatch' % kind,
+                                   'leaf': '.'.join(path), 'exit': r3.returncode, 'args': mode_args(m) + mute,
+                                   'stderr': err3[-400:], 'input_hex': G.encode(pk).hex()[:200000]})
+    return len(extra)
+
+
 def run_c15(ck, ctx):
     R, tier = ctx['R'], ctx['tier']
     wd = os.path.join(L.CACHE, 'tmp', f'c15_{os.getpid()}')
@@ -245,6 +271,7 @@ def run_c15(ck, ctx):
                     # drift: every leaf perturbed one at a time
                     leaves = [(p, v) for p, v in json_leaves(st) if p[-1] != 'is_finalized']
                     if tier == 'quick': leaves = [l for i, l in enumerate(leaves) if (i + si) % 3 == 0]
+                    multiline_drift(ck, wd, st, inp, m, mute, pk, si)
                     for path, v in leaves:
                         if path[-1] == 'run_trigger_type' and isinstance(v, list):
                             pv = [v[0] + 1, v[1]] if R.random() < 0.5 else [v[0], v[1] + 'x']     # a (u32, String) tuple
@@ -265,6 +292,17 @@ def run_c15(ck, ctx):
                                                    'stderr': err3[-400:], 'input_hex': G.encode(pk).hex()[:200000]})
                         reqs.append(f'statscmp {flatten_stats(st)} || {flatten_stats(st2)}'); expect.append('mismatch')
                     reqs.append(f'statscmp {flatten_stats(st)} || {flatten_stats(st)}'); expect.append('match')
+        # dedicated: an unmuted run over a stream with header faults (multi-line messages), JSON, in every tier
+        if si == 0:
+            pkh, _ = G.conforming_stream(R, nlinks=2, max_hbf=3)
+            for q in (len(pkh) // 3, 2 * len(pkh) // 3): pkh[q].rdh['res0'] = 5
+            inph = os.path.join(wd, 'in_hdr.raw'); open(inph, 'wb').write(G.encode(pkh))
+            for mh in [('all', 'its'), ('sanity', None)]:
+                sph = os.path.join(wd, f'st_hdr_{mh[0]}.json')
+                subprocess.run([L.BIN, inph] + mode_args(mh) + ['-S', sph, '-D', 'json'], stdout=subprocess.PIPE, stderr=subprocess.PIPE)
+                if os.path.exists(sph):
+                    nml = multiline_drift(ck, wd, json.load(open(sph)), inph, mh, [], pkh, 'hdr')
+                    ck.count('multiline_messages_perturbed', nml)
         # input drift: a single-field change of the input must be detected with the old file
         pk2 = [p.clone() for p in pk]; pk2[-1].rdh['trig'] ^= 0x4
         inp2 = os.path.join(wd, f'in{si}_b.raw'); open(inp2, 'wb').write(G.encode(pk2))
